@@ -19,6 +19,7 @@ package ip
 // chosen, together with that network's own address; a lookup error aborts; none attached -> nil
 //@ func GetLocalSubnetInterface
 //@   sig dstSubnet
+//@   locals ifaces: []net.Interface ;; v: net.Interface ;; viface: net.Interface
 //@   props C17 C05 C02 C11
 //@   observe net.Interfaces, GetLocalSubnetInterfaceIP
 //@   entry row nolist: [call net.Interfaces() as (ifs, e)] when e != nil && ret2 == e -> exit
@@ -32,6 +33,7 @@ package ip
 // the address returned for an interface is the address of the FIRST of its networks that contains the target base
 //@ func GetLocalSubnetInterfaceIP
 //@   sig iface, dstSubnet
+//@   locals dstSubnetIP: net.IP ;; addrs: []net.Addr ;; err: error ;; addr: net.Addr ;; ipnet: *net.IPNet ;; ok: bool
 //@   props C17 C05 C02 C11
 //@   observe Mask, Addrs, Contains
 //@   entry row noaddrs: [call Mask(dstSubnet.IP, dstSubnet.Mask) as (base) ; call Addrs(iface) as (as, e)] when e != nil && ret0 == nil && ret1 == e -> exit
@@ -54,6 +56,7 @@ package ip
 // than the best seen so far (so the first of equal metrics wins); taking it replaces interface and address by that
 // route's link and its first address; other routes change nothing
 //@ func GetDefaultInterface
+//@   locals routes: []github.com/vishvananda/netlink.Route ;; priority: int ;; route: github.com/vishvananda/netlink.Route
 //@   props C17 C05 C02 C11
 //@   observe netlink.RouteList, net.InterfaceByIndex, GetInterfaceIP
 //@   entry row nolist: [call netlink.RouteList(_, _) as (rs, e)] when e != nil && ret2 == e -> exit
@@ -70,6 +73,7 @@ package ip
 // the first one with the strictly lowest metric; other routes change nothing
 //@ func GetDefaultGatewayIP
 //@   sig iface
+//@   locals routes: []github.com/vishvananda/netlink.Route ;; priority: int ;; route: github.com/vishvananda/netlink.Route
 //@   props C11 C17 C05 C02
 //@   observe netlink.RouteList
 //@   entry row nolist: [call netlink.RouteList(_, _) as (rs, e)] when e != nil && ret1 == e -> exit
